@@ -25,7 +25,8 @@ CONSTANTS MaxDepth,
           Dev_C12_InputMomentum,   \* the pre-hook uses its default argument 0.9, not the context's momentum
           Dev_C10_GroupSizeLost    \* loading an unfrozen int2/int4 state into a default-quantized / requantize target loses weight_group_size
 
-Archs == {<<"Linear", "Other", "Linear">>, <<"LayerNorm", "Linear">>, <<"Conv2d", "Other", "Conv2d">>, <<"Linear", "LayerNorm", "Linear">>}
+\* <<"Linear", "Linear">> is instantiated with wide layers (192 -> 256 -> 8), so that int2/int4 weights get group sizes 96 and 128
+Archs == {<<"Linear", "Other", "Linear">>, <<"LayerNorm", "Linear">>, <<"Conv2d", "Other", "Conv2d">>, <<"Linear", "LayerNorm", "Linear">>, <<"Linear", "Linear">>}
 WQs == {"qint8", "qfloat8", "qint4", "qint2"}
 AQs == {"none", "qint8", "qfloat8"}
 Momenta == {"m50", "m90", "m25"}
@@ -175,12 +176,19 @@ LibCall ==
   /\ Log([a |-> "LibCall"])
   /\ UNCHANGED <<arch, mods, ctx, hooks, modes, saved, pc>>
 
+\* a batch through ANOTHER quantized model while our contexts are open: the global hooks see its modules,
+\* ours are not touched
+ForeignBatch ==
+  /\ pc = "quantized" /\ Bound /\ ctx # <<>>
+  /\ Log([a |-> "ForeignBatch"])
+  /\ UNCHANGED <<arch, mods, ctx, hooks, modes, saved, pc>>
+
 ActionsOf(f) ==
   CASE f = "calib"  -> {"Quantize", "EnterCalib", "CalibBatch", "ExitCalib", "Forward", "RaiseIn"}
     [] f = "serial" -> {"Quantize", "EnterCalib", "CalibBatch", "ExitCalib", "Freeze", "Save", "Load", "Forward"}
     [] f = "freeze" -> {"Quantize", "EnterCalib", "CalibBatch", "ExitCalib", "Freeze", "DeepCopy", "Forward"}
     [] f = "train"  -> {"Quantize", "OptStep", "Forward", "Freeze"}
-    [] OTHER        -> {"Quantize", "EnterCalib", "CalibBatch", "ExitCalib", "Forward", "RaiseIn", "Freeze", "Save", "Load", "DeepCopy", "OptStep", "LibCall"}
+    [] OTHER        -> {"Quantize", "EnterCalib", "CalibBatch", "ExitCalib", "Forward", "RaiseIn", "Freeze", "Save", "Load", "DeepCopy", "OptStep", "LibCall", "ForeignBatch"}
 On(a) == a \in ActionsOf(Focus)
 
 ActQuantize   == \E w \in WQs, a \in AQs, f \in Filters : Quantize(w, a, f)
@@ -193,11 +201,13 @@ ActFreeze     == On("Freeze") /\ Freeze
 ActOptStep    == On("OptStep") /\ OptStep
 ActDeepCopy   == On("DeepCopy") /\ DeepCopy
 ActLibCall    == On("LibCall") /\ LibCall
+ActForeign    == On("ForeignBatch") /\ ForeignBatch
 ActSave       == On("Save") /\ \E s \in {"none", "pickle", "weights_only", "safetensors"} : Save(s)
-ActLoad       == On("Load") /\ \E t \in {"default", "same", "requantize"} : Load(t)
+\* "otherq": the target was quantized with another weight qtype than the saved model (the state_dict decides)
+ActLoad       == On("Load") /\ \E t \in {"default", "same", "requantize", "otherq"} : Load(t)
 
 Next == ActQuantize \/ ActForward \/ ActEnterCalib \/ ActCalibBatch \/ ActRaiseIn \/ ActExitCalib
-        \/ ActFreeze \/ ActOptStep \/ ActDeepCopy \/ ActSave \/ ActLoad \/ ActLibCall
+        \/ ActFreeze \/ ActOptStep \/ ActDeepCopy \/ ActSave \/ ActLoad \/ ActLibCall \/ ActForeign
 
 (* ---- abstract properties ------------------------------------------------------------------------------ *)
 \* C08: exactly the eligible, selected modules are swapped; the others are untouched
@@ -223,7 +233,7 @@ EmaLawStep ==
                 /\ (~FedQuantized(i)) => mods'[i].insc = Append(mods[i].insc, <<ctx[1].momentum, b>>)]_vars
 \* C13: the registries mirror the open contexts, so leaving every context restores them
 CalibrationScoped == Len(hooks) = Len(ctx) /\ Len(modes) = Len(ctx) /\ (ctx = <<>> => (hooks = <<>> /\ modes = <<>>))
-InferencePure == [][(Len(prog') = Len(prog) + 1 /\ prog'[Len(prog')].a \in {"Forward", "DeepCopy", "Save", "LibCall"}) => mods' = mods]_vars
+InferencePure == [][(Len(prog') = Len(prog) + 1 /\ prog'[Len(prog')].a \in {"Forward", "DeepCopy", "Save", "LibCall", "ForeignBatch"}) => mods' = mods]_vars
 \* C10: a load restores the denotation that was saved
 RoundTripDenotation ==
   [][(Len(prog') = Len(prog) + 1 /\ prog'[Len(prog')].a = "Load") => mods' = saved.mods]_vars
